@@ -17,7 +17,8 @@
 (* toggle (set -x / +x / -o xtrace mid-script), redir (redirections in the *)
 (* trace, here-documents, commands that redirect descriptor 2), compound   *)
 (* (for, case, functions, groups, subshells, pipelines, !, && ||, eval,    *)
-(* dot scripts, command substitutions), verbose, noexec, errors.           *)
+(* dot scripts, command substitutions), verbose, noexec, errors, envps4    *)
+(* (PS4 inherited from the environment).                                   *)
 (*                                                                         *)
 (* Laws (invariant Laws, checked on every enumerated scenario):            *)
 (*   L1 every traced field list / assignment value re-reads (Quote!Read,   *)
@@ -61,6 +62,8 @@ FDefE == FDef("f", <<Sc(<<>>, <<Lit("echo"), Pos("1")>>, <<RDup(1, 2)>>, 0)>>)
 HereE == RHere(0, FALSE, FALSE, "E", <<"h $x">>)
 HereF == RHere(0, TRUE, TRUE, "F", <<"\tt $x">>)
 
+PS4Stmt(ps) == AsgOnly("PS4", Ps4(ps))
+
 Hdrs(f) ==
   CASE f = "fields" -> {[m |-> m] : m \in {"opt", "set"}}
     [] f = "ps4" -> {[p |-> p, m |-> m] : p \in 1..Len(PS4s), m \in {"before", "after"}}
@@ -72,6 +75,7 @@ Hdrs(f) ==
                                            Opts(TRUE, FALSE, FALSE, FALSE), Opts(FALSE, FALSE, TRUE, TRUE),
                                            Opts(FALSE, FALSE, FALSE, TRUE), Opts(TRUE, TRUE, TRUE, FALSE)}}
     [] f = "errors" -> {[inc |-> i] : i \in BOOLEAN}
+    [] f = "envps4" -> {[p |-> p] : p \in {<<PLit("> ")>>, <<PVar("x"), PLit(": ")>>, <<PInc("i"), PLit("+ ")>>}}
 
 Pool(f, h) ==
   CASE f = "fields" ->
@@ -113,6 +117,7 @@ Pool(f, h) ==
           Sc(<<>>, Lits(<<"cat">>), <<HereE, RHere(4, FALSE, FALSE, "END", <<"$y", "E">>)>>, 0),
           Sc(<<>>, Lits(<<"echo", "x">>), <<RApp(2, Lit("f1"))>>, 2),
           Sc(<<>>, <<>>, <<HereE>>, 0),
+          Sc(<<Asg("x", Lit("1"))>>, <<>>, <<ROut(1, Lit("f3"))>>, 0),
           Sc(<<>>, Lits(<<"echo", "o">>), <<ROut(1, Lit("f3")), RDup(2, 1)>>, 2),
           Pipe(<<Sc(<<>>, Lits(<<"echo", "p">>), <<RDup(2, 1)>>, 1), CmdL(<<"cat">>)>>),
           Sc(<<>>, Lits(<<"cat">>), <<RIn(Lit("f 2")), ROut(1, Lit("f3"))>>, 0)}
@@ -153,6 +158,8 @@ Pool(f, h) ==
           CmdL(<<"nosuch", "a", "b c">>), Echo(<<"ok">>), Sc(<<Asg("x", Lit("1"))>>, Lits(<<"nosuch">>), <<>>, 0),
           Cmd(<<Lit("echo"), Dqs(<<CmdL(<<"nosuch">>)>>)>>), Sc(<<Asg("y", Inc("i"))>>, <<Lit("echo"), ErrW>>, <<>>, 0),
           Cmd(<<Lit("echo"), Inc("i"), ErrW>>)}
+    [] f = "envps4" ->
+         {Echo(<<"a">>), AsgOnly("x", Lit("B")), PS4Stmt(<<PLit("+ ")>>), Cmd(<<Lit("echo"), Dq("x")>>), SetO(<<"-x">>)}
 
 MaxLen(f) ==
   CASE f = "fields" -> 1
@@ -163,8 +170,8 @@ MaxLen(f) ==
     [] f = "verbose" -> 2 + Deep
     [] f = "noexec" -> 2 + Deep
     [] f = "errors" -> 2
+    [] f = "envps4" -> 2
 
-PS4Stmt(ps) == AsgOnly("PS4", Ps4(ps))
 Prelude(f, h) ==
   CASE f = "fields" -> <<Sc(<<Asg("x", Lit("a b")), Asg("y", Lit("it's  x")), Asg("e", Lit(""))>>, <<>>, <<>>, 0)>>
                        \o (IF h.m = "set" THEN <<SetO(<<"-x">>)>> ELSE <<>>)
@@ -177,15 +184,18 @@ Prelude(f, h) ==
     [] f = "verbose" -> <<AsgOnly("x", Lit("vx"))>>
     [] f = "noexec" -> <<>>
     [] f = "errors" -> (IF h.inc THEN <<PS4Stmt(IncPS4)>> ELSE <<>>) \o <<SetO(<<"-x">>)>>
+    [] f = "envps4" -> <<>>
 StartOpts(f, h) ==
   CASE f = "fields" -> IF h.m = "opt" THEN XOpt ELSE NoOpts
     [] f = "toggle" -> Opts(h.x, FALSE, FALSE, FALSE)
     [] f = "verbose" -> Opts(h.x, h.v, FALSE, FALSE)
     [] f = "noexec" -> h.o
+    [] f = "envps4" -> XOpt
     [] OTHER -> NoOpts
 DotFiles(f) == IF f = "compound" THEN <<DotFile("d1", <<Echo(<<"dot">>), AsgOnly("x", Lit("dd"))>>)>> ELSE <<>>
 
-Scenario(s) == Scen(StartOpts(s.fam, s.h), Prelude(s.fam, s.h) \o s.items \o <<SnapFin>>, DotFiles(s.fam))
+Scenario(s) == ScenEnv(StartOpts(s.fam, s.h), Prelude(s.fam, s.h) \o s.items \o <<SnapFin>>, DotFiles(s.fam),
+                       IF s.fam = "envps4" THEN s.h.p ELSE <<>>)
 
 Init == \E f \in Fams : \E h \in Hdrs(f) : st = [fam |-> f, h |-> h, items |-> <<>>]
 Next == /\ Len(st.items) < MaxLen(st.fam)
@@ -199,6 +209,7 @@ Out(s) ==
   LET sc == Scenario(s)
   IN [fam |-> s.fam, n |-> Len(s.items), script |-> Script(sc), o |-> sc.o,
       dots |-> MapSeq(LAMBDA d : [f |-> d.f, lines |-> BodyLines(d.c)], sc.dots),
+      env |-> IF sc.env4 = <<>> THEN "" ELSE "PS4=" \o Ps4Text(sc.env4),
       alts |-> SetSeq(Alts(sc)), sc |-> sc]
 
 Emit == st.items = <<>> \/ PrintT(ToJson(Out(st)))
